@@ -85,7 +85,7 @@ func (e *C02) Assumptions() []string {
 }
 func (e *C02) Plan(tier string, seed uint64) int {
 	if tier == "thorough" {
-		return 120000
+		return 300000
 	}
 	return 30000
 }
@@ -199,7 +199,7 @@ func (e *C14) Assumptions() []string {
 }
 func (e *C14) Plan(tier string, seed uint64) int {
 	if tier == "thorough" {
-		return 100000
+		return 300000
 	}
 	return 24000
 }
